@@ -76,9 +76,9 @@ Proofs/TypedP.vos Proofs/TypedP.vok Proofs/TypedP.required_vos: Proofs/TypedP.v 
 Properties/C06.vo Properties/C06.glob Properties/C06.v.beautified Properties/C06.required_vo: Properties/C06.v Model/Base.vo Model/Schema.vo Model/Wire.vo Model/Utf8.vo Model/Typed.vo Model/Procs.vo Model/Inst.vo Spec/Tables.vo Spec/CborItem.vo Proofs/WireP.vo Proofs/SkipP.vo Proofs/TypedP.vo Proofs/FramingP.vo
 Properties/C06.vio: Properties/C06.v Model/Base.vio Model/Schema.vio Model/Wire.vio Model/Utf8.vio Model/Typed.vio Model/Procs.vio Model/Inst.vio Spec/Tables.vio Spec/CborItem.vio Proofs/WireP.vio Proofs/SkipP.vio Proofs/TypedP.vio Proofs/FramingP.vio
 Properties/C06.vos Properties/C06.vok Properties/C06.required_vos: Properties/C06.v Model/Base.vos Model/Schema.vos Model/Wire.vos Model/Utf8.vos Model/Typed.vos Model/Procs.vos Model/Inst.vos Spec/Tables.vos Spec/CborItem.vos Proofs/WireP.vos Proofs/SkipP.vos Proofs/TypedP.vos Proofs/FramingP.vos
-Properties/C04.vo Properties/C04.glob Properties/C04.v.beautified Properties/C04.required_vo: Properties/C04.v Model/Base.vo Model/Schema.vo Model/Wire.vo Model/Utf8.vo Model/Typed.vo Model/Procs.vo Model/Inst.vo Spec/Tables.vo Spec/ProcTables.vo Spec/CborItem.vo Proofs/WireP.vo Proofs/SkipP.vo Proofs/TypedP.vo Proofs/FramingP.vo Proofs/C11P.vo Proofs/Finite.vo
-Properties/C04.vio: Properties/C04.v Model/Base.vio Model/Schema.vio Model/Wire.vio Model/Utf8.vio Model/Typed.vio Model/Procs.vio Model/Inst.vio Spec/Tables.vio Spec/ProcTables.vio Spec/CborItem.vio Proofs/WireP.vio Proofs/SkipP.vio Proofs/TypedP.vio Proofs/FramingP.vio Proofs/C11P.vio Proofs/Finite.vio
-Properties/C04.vos Properties/C04.vok Properties/C04.required_vos: Properties/C04.v Model/Base.vos Model/Schema.vos Model/Wire.vos Model/Utf8.vos Model/Typed.vos Model/Procs.vos Model/Inst.vos Spec/Tables.vos Spec/ProcTables.vos Spec/CborItem.vos Proofs/WireP.vos Proofs/SkipP.vos Proofs/TypedP.vos Proofs/FramingP.vos Proofs/C11P.vos Proofs/Finite.vos
+Properties/C04.vo Properties/C04.glob Properties/C04.v.beautified Properties/C04.required_vo: Properties/C04.v Model/Base.vo Model/Schema.vo Model/Wire.vo Model/Utf8.vo Model/Typed.vo Model/Procs.vo Model/Inst.vo Spec/Tables.vo Spec/ProcTables.vo Spec/CborItem.vo Proofs/WireP.vo Proofs/SkipP.vo Proofs/TypedP.vo Proofs/FramingP.vo Proofs/C11P.vo Proofs/Finite.vo Proofs/Utf8P.vo Proofs/StrsP.vo
+Properties/C04.vio: Properties/C04.v Model/Base.vio Model/Schema.vio Model/Wire.vio Model/Utf8.vio Model/Typed.vio Model/Procs.vio Model/Inst.vio Spec/Tables.vio Spec/ProcTables.vio Spec/CborItem.vio Proofs/WireP.vio Proofs/SkipP.vio Proofs/TypedP.vio Proofs/FramingP.vio Proofs/C11P.vio Proofs/Finite.vio Proofs/Utf8P.vio Proofs/StrsP.vio
+Properties/C04.vos Properties/C04.vok Properties/C04.required_vos: Properties/C04.v Model/Base.vos Model/Schema.vos Model/Wire.vos Model/Utf8.vos Model/Typed.vos Model/Procs.vos Model/Inst.vos Spec/Tables.vos Spec/ProcTables.vos Spec/CborItem.vos Proofs/WireP.vos Proofs/SkipP.vos Proofs/TypedP.vos Proofs/FramingP.vos Proofs/C11P.vos Proofs/Finite.vos Proofs/Utf8P.vos Proofs/StrsP.vos
 Spec/Limits.vo Spec/Limits.glob Spec/Limits.v.beautified Spec/Limits.required_vo: Spec/Limits.v Model/Base.vo Model/Schema.vo Spec/Tables.vo
 Spec/Limits.vio: Spec/Limits.v Model/Base.vio Model/Schema.vio Spec/Tables.vio
 Spec/Limits.vos Spec/Limits.vok Spec/Limits.required_vos: Spec/Limits.v Model/Base.vos Model/Schema.vos Spec/Tables.vos
@@ -124,6 +124,12 @@ Proofs/FilterP.vos Proofs/FilterP.vok Proofs/FilterP.required_vos: Proofs/Filter
 Properties/C14.vo Properties/C14.glob Properties/C14.v.beautified Properties/C14.required_vo: Properties/C14.v Model/Base.vo Model/Schema.vo Model/Wire.vo Model/Utf8.vo Model/Typed.vo Model/Procs.vo Model/Inst.vo Spec/Tables.vo Spec/ProcTables.vo Proofs/Finite.vo Proofs/FramingP.vo Proofs/WireP.vo Proofs/FilterP.vo
 Properties/C14.vio: Properties/C14.v Model/Base.vio Model/Schema.vio Model/Wire.vio Model/Utf8.vio Model/Typed.vio Model/Procs.vio Model/Inst.vio Spec/Tables.vio Spec/ProcTables.vio Proofs/Finite.vio Proofs/FramingP.vio Proofs/WireP.vio Proofs/FilterP.vio
 Properties/C14.vos Properties/C14.vok Properties/C14.required_vos: Properties/C14.v Model/Base.vos Model/Schema.vos Model/Wire.vos Model/Utf8.vos Model/Typed.vos Model/Procs.vos Model/Inst.vos Spec/Tables.vos Spec/ProcTables.vos Proofs/Finite.vos Proofs/FramingP.vos Proofs/WireP.vos Proofs/FilterP.vos
-Properties/C13.vo Properties/C13.glob Properties/C13.v.beautified Properties/C13.required_vo: Properties/C13.v Model/Base.vo Model/Schema.vo Model/Wire.vo Model/Utf8.vo Model/Typed.vo Model/Procs.vo Model/Inst.vo Spec/Tables.vo Spec/Limits.vo Proofs/WireP.vo Proofs/TypedP.vo Proofs/FramingP.vo
-Properties/C13.vio: Properties/C13.v Model/Base.vio Model/Schema.vio Model/Wire.vio Model/Utf8.vio Model/Typed.vio Model/Procs.vio Model/Inst.vio Spec/Tables.vio Spec/Limits.vio Proofs/WireP.vio Proofs/TypedP.vio Proofs/FramingP.vio
-Properties/C13.vos Properties/C13.vok Properties/C13.required_vos: Properties/C13.v Model/Base.vos Model/Schema.vos Model/Wire.vos Model/Utf8.vos Model/Typed.vos Model/Procs.vos Model/Inst.vos Spec/Tables.vos Spec/Limits.vos Proofs/WireP.vos Proofs/TypedP.vos Proofs/FramingP.vos
+Proofs/Utf8P.vo Proofs/Utf8P.glob Proofs/Utf8P.v.beautified Proofs/Utf8P.required_vo: Proofs/Utf8P.v Model/Base.vo Model/Utf8.vo Proofs/WireP.vo
+Proofs/Utf8P.vio: Proofs/Utf8P.v Model/Base.vio Model/Utf8.vio Proofs/WireP.vio
+Proofs/Utf8P.vos Proofs/Utf8P.vok Proofs/Utf8P.required_vos: Proofs/Utf8P.v Model/Base.vos Model/Utf8.vos Proofs/WireP.vos
+Proofs/StrsP.vo Proofs/StrsP.glob Proofs/StrsP.v.beautified Proofs/StrsP.required_vo: Proofs/StrsP.v Model/Base.vo Model/Utf8.vo Proofs/WireP.vo Proofs/Utf8P.vo
+Proofs/StrsP.vio: Proofs/StrsP.v Model/Base.vio Model/Utf8.vio Proofs/WireP.vio Proofs/Utf8P.vio
+Proofs/StrsP.vos Proofs/StrsP.vok Proofs/StrsP.required_vos: Proofs/StrsP.v Model/Base.vos Model/Utf8.vos Proofs/WireP.vos Proofs/Utf8P.vos
+Properties/C13.vo Properties/C13.glob Properties/C13.v.beautified Properties/C13.required_vo: Properties/C13.v Model/Base.vo Model/Schema.vo Model/Wire.vo Model/Utf8.vo Model/Typed.vo Model/Procs.vo Model/Inst.vo Spec/Tables.vo Spec/Limits.vo Proofs/WireP.vo Proofs/TypedP.vo Proofs/FramingP.vo Proofs/Utf8P.vo Proofs/StrsP.vo
+Properties/C13.vio: Properties/C13.v Model/Base.vio Model/Schema.vio Model/Wire.vio Model/Utf8.vio Model/Typed.vio Model/Procs.vio Model/Inst.vio Spec/Tables.vio Spec/Limits.vio Proofs/WireP.vio Proofs/TypedP.vio Proofs/FramingP.vio Proofs/Utf8P.vio Proofs/StrsP.vio
+Properties/C13.vos Properties/C13.vok Properties/C13.required_vos: Properties/C13.v Model/Base.vos Model/Schema.vos Model/Wire.vos Model/Utf8.vos Model/Typed.vos Model/Procs.vos Model/Inst.vos Spec/Tables.vos Spec/Limits.vos Proofs/WireP.vos Proofs/TypedP.vos Proofs/FramingP.vos Proofs/Utf8P.vos Proofs/StrsP.vos
